@@ -12,8 +12,8 @@ deliberately drops both marks: known finding 17, reported once by the item table
 
 Callees are used by contract: `has_null_base_type` by the contract proved in the same run; `get_type_name` returns an
 arbitrary string; `to_upper_camel_case` is an uninterpreted function; `get_converter` returns None or a `[JsonConverter(`
-line; `get_doc` lines start with `///`; `generate_extras` lines are `[Obsolete(` / `[Proposed]` / `[Since(` / `[Direction(`
-lines (assumed — listed in the evidence).  Lists returned by callees are abstracted by one generic element (universal)."""
+line; `get_doc` lines start with `///` (assumed — listed in the evidence); `generate_extras` lines are `[Obsolete(` / `[Proposed]` /
+`[Since(` / `[Direction(` lines (proved in the same run: genhelpers.dotnet_extras_item).  Lists returned by callees are abstracted by one generic element (universal)."""
 from __future__ import annotations
 
 import os
@@ -32,8 +32,14 @@ ASSUMED = [
     "dotnet to_upper_camel_case is a function str -> str",
     "dotnet get_converter returns None or a line starting with '[JsonConverter('",
     "dotnet get_doc returns lines starting with '///'",
-    "dotnet generate_extras returns lines starting with '[Obsolete(' / '[Since(' / '[Direction(' or equal to '[Proposed]'",
     "the `usings` list handed to generate_property is only appended to",
+]
+
+
+# callee contracts used by generate_property that are themselves proved in the same run of C08 (not assumptions)
+DISCHARGED = [
+    "dotnet has_null_base_type: True iff some item is the base type null (contracts/genhelpers.items_null_contract)",
+    "dotnet generate_extras (elements without messageDirection) returns only '[Obsolete(' / '[Since(' / '[Direction(' lines or '[Proposed]' (contracts/genhelpers.dotnet_extras_item)",
 ]
 
 
@@ -92,7 +98,7 @@ def build():
     ext("get_type_name", [("type_def", ["other"]), ("types", ["other"]), ("spec", ["other"]), ("name_context", ["str"])], s_type_name, ASSUMED[0])
     ext("get_converter", [("type_def", ["other"]), ("type_name", ["str"])], s_converter, ASSUMED[2])
     ext("get_doc", [("doc", ["none", "str"])], s_doc, ASSUMED[3])
-    ext("generate_extras", [("type_def", ["other"])], s_extras, ASSUMED[4])
+    ext("generate_extras", [("type_def", ["other"])], s_extras, DISCHARGED[1])
     # has_null_base_type: by its contract (proved by C08 in the same run)
     fn = world.functions.get(f"{REL}::has_null_base_type")
     if fn is not None:
